@@ -18,7 +18,8 @@ Events (all on the real object, mirrored on the model):
         U,k  a NON byte-aligned slice of the current content of the destination cell itself: read(@(w+8)[base+off])[k:k+w]
         V,k  the same taken from a cell starting one byte lower: read(@(w+16)[base+off-1])[8+k:8+k+w]
              (read-modify-write such as `@32[p] = @32[p] >> 4` or a bit-field store: never a write-back)
-        Z    the original memory of another base
+        Z    the original memory of another base q at the same offset (copy q -> p; word-wise copies at contiguous
+             destinations give stored memory values with contiguous sources, read back misaligned by the probe grid)
   ("del", base, off, w)      del symbols[@w[base+off]]   (KeyError expected iff some byte is not stored)
   ("delp", base, off, w)     symbols.symbols_mem.delete_partial(@w[base+off])
   ("rt",)                    engine.get_state() -> fresh engine .set_state(state)   (export / import)
@@ -331,10 +332,18 @@ def events(st):
     evs = []
     for off, vk in WRITES + (WRITES_MORE if more else []):
         evs.append(("w", p, off, vk))
+    # copies from the other base q to p: word-wise at contiguous destinations (contiguous sources), so that a misaligned
+    # read starts inside one stored memory value and straddles into the next
     evs.append(("w", p, -1, ("Z", 16, s)))
+    evs.append(("w", p, 1, ("Z", 16, s)))
     evs.append(("w", s, -1, ("X", 16)))
     if more:
         evs.append(("w", s, 0, ("O", 8)))
+        evs.append(("w", p, 1, ("M", 16, 1)))          # same-base shifted copy, contiguous with (-1, M16,+1)
+        evs.append(("w", p, -2, ("Z", 32, s)))         # word-wise 32-bit copy q -> p: -2..1 and 2..5
+        evs.append(("w", p, 2, ("Z", 32, s)))
+        evs.append(("w", p, 0, ("Z", 8, s)))           # byte-wise copy
+        evs.append(("w", p, 1, ("Z", 8, s)))
     for off, w in DELS + (DELS_MORE if more else []):
         evs.append(("del", p, off, w))
     for off, w in DELPS + (DELPS_MORE if more else []):
@@ -611,6 +620,7 @@ def outcome(st, ev):
 PRE1 = (("w", SYM, -2, ("X", 64)), ("w", SYM, 0, ("Y", 16)), ("w", SYM, -1, ("C", 16)))      # overlapping, across the wrap
 PRE2 = (("w", INT, -1, ("X", 32)), ("w", INT, 1, ("C", 8)), ("w", INT, 3, ("C", 32)))        # wrap + adjacent constants
 PRE3 = (("w", SUM, -2, ("M", 32, 1)), ("w", SUM, 0, ("X", 16)))                              # shifted copy across the wrap
+PRE4 = (("w", SYM, -2, ("Z", 32, SUM)), ("w", SYM, 2, ("Z", 32, SUM)), ("w", SYM, 6, ("Z", 8, SUM)))   # word-wise copy q -> p + a byte
 
 # A seed is (address size, primary base, pre-applied events, own depth limit, extended menu).
 # SEEDS is the union of both tiers (one list, so that a recorded seed index is tier-independent).
@@ -640,6 +650,7 @@ def _plan():
     for asz in (8, 32):
         for primary, pre in ((SYM, PRE1), (INT, PRE2), (SUM, PRE3)):
             add("thorough", (asz, primary, pre, 3, False))
+    add("thorough", (32, SYM, PRE4, 3, False))
 
 
 _plan()
